@@ -1,6 +1,6 @@
 """C16 -- Thrift IDL parser is total on arbitrary text.
 
-proof gate   : fam/idl/coq/Properties/C16.v  (C16_total, C16_depth, C16_nesting_range, C16_repetition_is_iteration)
+proof gate   : fam/idl/coq/Properties/C16.v  (C16_total, C16_depth, C16_nesting_range, C16_repetition_is_iteration, C16_no_panic)
 correspondence `idl-parse` : the extracted Gallina port of the 16 parser files (fam/idl/coq/Parser.v) and the real
                parsers (pilota-thrift-parser, through fam/idl/harness) run the same texts; the result lines
                (outcome class, bytes remaining, nom ErrorKind, canonical AST) are compared verbatim.
@@ -28,6 +28,10 @@ TRUSTED = [
     "fam/idl/harness (supervisor/worker process pair, 2 MiB worker stack, catch_unwind, canonical printing canon.rs) and pv/idlgen.py (generators, mutators)",
     "hand-written Gallina port fam/idl/coq/{Comb,Parser}.v of nom 7.1.3 combinators and of the parser files: tied to the code by this "
     "differential run (outcome class, error position, ErrorKind and AST compared), not verified against the Rust text",
+    "panic sites: tools/extract_idl.py reads, per function of the parser files, unwrap / expect, panic macros, indexing / slicing, unary "
+    "minus, binary + - *, division by a non-literal (regular expressions over the comment- and literal-stripped text); nom 7.1.3's INTERNAL "
+    "slicing (take_split / slice(..offset) inside tag, take_while, take_until, recognize, escaped ...) stays modelled by total functions "
+    "(Comb.consumed / take_len / drop_len): its preconditions are nom's own invariants, exercised by the differential run, not re-proved",
     "native stack bytes per recursion level are measured (harness, debug and release), not modelled; the model bounds the recursion depth",
     "repetition sites: tools/extract_idl.py reads, per function of the parser files, the calls of nom's repeating combinators, the call "
     "graph (X::parse, free functions, macro-defined functions; by regular expressions over the comment-stripped text) and whether each "
@@ -43,8 +47,10 @@ def unmapped_model_parsers():
     src = open(os.path.join(FAM.coq, "Parser.v"), encoding="utf-8").read()
     rs = open(os.path.join(FAM.coq, "Proofs", "RepSites.v"), encoding="utf-8").read()
     rows = " ".join(re.findall(r"ltac:\(row \"[^\"]*\" ([^;\]]*?)\)\s*[;\]]", rs))
+    ps = open(os.path.join(FAM.coq, "Proofs", "PanicSites.v"), encoding="utf-8").read()
+    prows = " ".join(re.findall(r"ltac:\(prow \"[^\"]*\" ([^;\]]*?)\)\s*[;\]]", ps))
     defs = re.findall(r"^(?:Definition|Fixpoint|with)\s+(p_\w+|parse_file)\b", src, flags=re.M)
-    return [d for d in defs if not re.search(r"\b%s\b" % d, rows)], len(defs)
+    return [d for d in defs if not re.search(r"\b%s\b" % d, rows) or not re.search(r"\b%s\b" % d, prows)], len(defs)
 
 
 def _extract_idl():
@@ -478,7 +484,7 @@ def run(chk, replay=None):
         chk.cov["repetition_sites"] = dict(
             theorem="C16_repetition_is_iteration", model_parser_definitions=ndefs, unmapped=miss,
             note="src_rep_sites / src_recursive / nom_loop_combinators (Generated/IdlReps.v, regenerated from the Rust text) against the "
-                 "inventory Ltac computes from the definitions of Parser.v; every p_* definition of Parser.v must occur in the map of Proofs/RepSites.v")
+                 "inventory Ltac computes from the definitions of Parser.v; every p_* definition of Parser.v must occur in the maps of Proofs/RepSites.v and Proofs/PanicSites.v (C16_no_panic: the same for the panic-capable sites)")
         if miss or not ndefs:
             chk.violation("Proofs/RepSites.v does not map these parser definitions of Parser.v to a function of the source: %s" % ", ".join(miss),
                           dict(kind="rep-sites-map", unmapped=miss), no_input=True)
